@@ -319,6 +319,41 @@ func synthRequest(param string) []byte {
 		{"CorrPerNode", emT, mdT, []protoreflect.ExtensionType{gorums.E_Correctable, gorums.E_PerNodeArg}, false},
 		{"CorrStream", mdT, emT, []protoreflect.ExtensionType{gorums.E_Correctable}, true},
 	}
+	// a second file generated in the SAME plugin run: the same method names with other call types
+	// (anything the generator remembers per method name across files shows up here)
+	ms2 := []mm{
+		{"plain_rpc", mdT, mdT, []protoreflect.ExtensionType{gorums.E_Quorumcall}, false},
+		{"Uni", mdT, emT, []protoreflect.ExtensionType{gorums.E_Multicast}, false},
+		{"Multi", mdT, emT, []protoreflect.ExtensionType{gorums.E_Unicast}, false},
+		{"Quorum", mdT, mdT, []protoreflect.ExtensionType{gorums.E_Quorumcall, gorums.E_Async}, false},
+		{"QuorumAsync", mdT, emT, []protoreflect.ExtensionType{gorums.E_Quorumcall}, false},
+		{"Corr", mdT, mdT, []protoreflect.ExtensionType{gorums.E_Quorumcall}, false},
+		{"CorrStream", mdT, emT, []protoreflect.ExtensionType{gorums.E_Correctable}, false},
+		{"QuorumPerNode", emT, mdT, []protoreflect.ExtensionType{gorums.E_Correctable, gorums.E_PerNodeArg}, false},
+	}
+	build := func(ms []mm) *descriptorpb.ServiceDescriptorProto {
+		svc := &descriptorpb.ServiceDescriptorProto{Name: proto.String("Synth")}
+		for _, m := range ms {
+			md := &descriptorpb.MethodDescriptorProto{Name: proto.String(m.name), InputType: proto.String(m.in), OutputType: proto.String(m.out)}
+			if m.stream {
+				md.ServerStreaming = proto.Bool(true)
+			}
+			if len(m.opts) > 0 {
+				md.Options = &descriptorpb.MethodOptions{}
+				for _, e := range m.opts {
+					proto.SetExtension(md.Options, e, true)
+				}
+			}
+			svc.Method = append(svc.Method, md)
+		}
+		return svc
+	}
+	fdp2 := &descriptorpb.FileDescriptorProto{
+		Name: proto.String("zzsynth2/synth2.proto"), Package: proto.String("zzsynth2"), Syntax: proto.String("proto3"),
+		Dependency: []string{"gorums.proto", "ordering/ordering.proto", "google/protobuf/empty.proto"},
+		Options:    &descriptorpb.FileOptions{GoPackage: proto.String("github.com/relab/gorums/internal/zzsynth2")},
+		Service:    []*descriptorpb.ServiceDescriptorProto{build(ms2)},
+	}
 	svc := &descriptorpb.ServiceDescriptorProto{Name: proto.String("Synth")}
 	for _, m := range ms {
 		md := &descriptorpb.MethodDescriptorProto{Name: proto.String(m.name), InputType: proto.String(m.in), OutputType: proto.String(m.out)}
@@ -341,7 +376,7 @@ func synthRequest(param string) []byte {
 		Options:    &descriptorpb.FileOptions{GoPackage: proto.String("github.com/relab/gorums/internal/zzsynth")},
 		Service:    []*descriptorpb.ServiceDescriptorProto{svc},
 	}
-	req := &pluginpb.CodeGeneratorRequest{FileToGenerate: []string{"zzsynth/synth.proto"}, Parameter: proto.String(param), ProtoFile: append(deps, fdp)}
+	req := &pluginpb.CodeGeneratorRequest{FileToGenerate: []string{"zzsynth/synth.proto", "zzsynth2/synth2.proto"}, Parameter: proto.String(param), ProtoFile: append(deps, fdp, fdp2)}
 	b, err := proto.Marshal(req)
 	if err != nil {
 		panic(err)
